@@ -26,7 +26,9 @@ ASSUMPTIONS = [
 ]
 
 SEED = ('MSH|^~\\&|SA|SF|RA|RF|20200229123000||ADT^A01^ADT_A01|ID1|P|{v}\r'
-        'EVN||20200229\rPID|1||I1^^^AA&1.2&ISO~I2||FAM^GIV||19800101|M\rNK1|1|N^K\rPV1|1|I|W^R^B')
+        'EVN||20200229\rPID|1||I1^^^AA&1.2&ISO~I2||FAM^GIV||19800101|M\rNK1|1|N^K\rPV1|1|I|W^R^B\r'
+        'OBX|1|CE|C^T||120^^mmHg~^80|u')
+# OBX-5 is of type varies: its components (with empty ones in front of valued ones) follow another path in parser and encoder
 
 
 def seed(v):
